@@ -67,7 +67,10 @@ def _one(expr, d):
                 if not rep.findings:
                     raise
                 later = f"  (then analysis error: {str(e)[:120]})"
-            bad = [o for o in rep.obligations if o["verdict"] != "discharged"]
+            import json as _json
+            _kn = {(k["rule"], k["function"], k["construct"]) for k in _json.load(open("/verif/known_findings.json"))["findings"]}
+            _known_sites = {f"{f.function}: {f.construct}"[:90] for f in rep.findings if f.key() in _kn}
+            bad = [o for o in rep.obligations if o["verdict"] != "discharged" and o["site"][:90] not in _known_sites]
             print(f"{name}: {'ALARM ' + str(len(bad)) if bad else 'silent'}{later}")
             for o in bad[:4]:
                 print("    ", o["site"][:90], "|", o["detail"][:260])
